@@ -73,6 +73,32 @@ other encoding `e'` passes the check for the generator `(m/e')•M` -/
 theorem pinned_generator_swap (M : G) (m e' : F) (he : e' ≠ 0) : e' • ((m / e') • M) = m • M := by
   rw [smul_smul, mul_div_cancel₀ _ he]
 
+/-- the Schnorr relation of the encrypt-and-decrypt statement must be recomputed under the **statement's**
+generator `M`: the link to the signed claim is the message term `pm • M` (`pm` = the signature proof's
+response). Recomputed under a generator `N` carried in the proof, the relation holds for `N = 0`, `c2 = b•K`,
+whatever the signed claim and whatever `pm` is — and the decryption check `e'•N = c2 - sk•c1` then passes
+for every claim `e'` (seeded change `ved-r2-under-carried-generator`; caught by the hand-written holder) -/
+theorem ved_identity_generator_unbinds (K g : G) (sk b r c pm e' : F) (hK : K = sk • g) :
+    (-c) • (b • K) + pm • (0 : G) + (r + c * b) • K = r • K ∧
+    e' • (0 : G) = b • K - sk • (b • g) := by
+  subst hK
+  constructor <;> module
+
+/-- under the statement's generator the same relation does bind: two accepting answers to one commitment
+with different challenges give `c2 = m•M + b•K` with `m` the witness of the signature proof's response
+(`C05.elgamal_sound`), and `ved_returns_signed` then gives the signed claim -/
+theorem ved_statement_generator_binds (M K c2 R2 : G) (c c' pm pm' pb pb' : F) (hc : c ≠ c')
+    (h : R2 = (-c) • c2 + pm • M + pb • K) (h' : R2 = (-c') • c2 + pm' • M + pb' • K) :
+    c2 = ((pm - pm') / (c - c')) • M + ((pb - pb') / (c - c')) • K := by
+  have hd : c - c' ≠ 0 := sub_ne_zero.mpr hc
+  have e1 : (c - c') • c2 = (pm - pm') • M + (pb - pb') • K := by
+    have := h.symm.trans h'
+    have h3 : (c - c') • c2 = ((-c') • c2 + pm' • M + pb' • K) - ((-c) • c2 + pm • M + pb • K)
+        + ((pm - pm') • M + (pb - pb') • K) := by module
+    rw [h3, ← this, sub_self, zero_add]
+  have : c2 = (c - c')⁻¹ • ((c - c') • c2) := by rw [smul_smul, inv_mul_cancel₀ hd, one_smul]
+  rw [this, e1, smul_add, smul_smul, smul_smul, div_eq_inv_mul, div_eq_inv_mul]
+
 /-- presence of the decryptable part is decided by the statement (repair of F07) -/
 def partCheck (allow hasPart : Bool) : Bool := allow == hasPart
 
